@@ -15,6 +15,7 @@ type C09Case struct {
 	Cfg      CheckCfg `json:"cfg"`
 	Prog     *Prog    `json:"prog"`
 	PreFiles int      `json:"prefiles"` // pre-seeded fail files (all-zero words of various lengths)
+	Heavy    bool     `json:"heavy,omitempty"`
 }
 
 type c09 struct{}
@@ -27,6 +28,18 @@ func (c09) Cases(c *Ctx) int { return c.Pick(700, 14000) }
 
 func (c09) Gen(dt *drv.T, c *Ctx) any {
 	cs := &C09Case{}
+	if chance(dt, "heavy", 1) && drv.Bool().Draw(dt, "heavy2") {
+		// a long run of large test cases: millions of 64-bit words consumed by one Check in total. Whatever a test
+		// case may consume is a matter of that test case alone
+		cs.Heavy = true
+		cs.Cfg = CheckCfg{Name: "TestC09", Checks: drv.IntRange(400, 800).Draw(dt, "N"), Seed: drv.Uint64Range(1, 1<<62).Draw(dt, "seed"), NoFailFile: true}
+		n := drv.IntRange(2000, 3000).Draw(dt, "len") // runes; each takes at least two words
+		cs.Prog = &Prog{Body: []*Stmt{
+			{Op: "draw", Label: "d1", Gen: &GenSpec{K: "int", IK: "Int", Mode: "range", SA: 0, SB: 999}},
+			{Op: "draw", Label: "big", Gen: &GenSpec{K: "string", Min: n, Max: n, MaxLen: -1}},
+		}}
+		return cs
+	}
 	n := pick(dt, "nhow", "tiny", "small", "small", "mid", "large")
 	switch n {
 	case "tiny":
@@ -141,6 +154,9 @@ func (c09) Run(c *Ctx, csAny any) Outcome {
 	if obs.Escaped != nil {
 		out.Viol = violf("C09:panic-escaped", "panic escaped Check: %v", obs.Escaped)
 		return out
+	}
+	if cs.Heavy {
+		out.Classes = append(out.Classes, "heavy-run(millions-of-words)")
 	}
 
 	// replay invocations come first; if one of them is falsified the run fails from the fail file (not this
